@@ -350,6 +350,9 @@ func runFaulted(sc scenario, fp *faultPoint) (dbOps []string, rpcOps []string, v
 			return dbOps, rpcOps, "INCONCLUSIVE restart: " + err.Error(), firedFlag.Load()
 		}
 	}
+	if len(r.OpenTx) > 0 || r.Held > 0 {
+		return dbOps, rpcOps, fmt.Sprintf("the step returned (%s %s) but left a transaction open (server sessions %v, %d pool connection(s) never handed back): its rows and locks stay uncommitted and later steps run out of connections", r.Outcome(), errString(r.Err), r.OpenTx, r.Held), firedFlag.Load()
+	}
 	if v := aud.CheckNow("in the state left behind by the step (" + r.Outcome() + " " + errString(r.Err) + ")"); v != "" {
 		return dbOps, rpcOps, v, firedFlag.Load()
 	}
@@ -545,6 +548,9 @@ func TestC02_MultiFault(t *testing.T) {
 				}
 				if r.After.OK && r.After.Num > st.maxEver[p.Src.Name] {
 					st.maxEver[p.Src.Name] = r.After.Num
+				}
+				if len(r.OpenTx) > 0 || r.Held > 0 {
+					fail("the step of %s returned (%s %s) but left a transaction open (server sessions %v, %d pool connection(s) never handed back)", p.Key(), r.Outcome(), errString(r.Err), r.OpenTx, r.Held)
 				}
 				if rapid.IntRange(0, 5).Draw(rt, "deathafter") == 0 {
 					if err := w.Restart(); err != nil {
